@@ -298,9 +298,9 @@ theorem foldRemove_keepsDom (cond : Arg → Bool) (l : List Arg) (s : St) (a : A
 structure RInv (c : Cfg) (s0 s : St) : Prop where
   bk : BK s
   sh : Sh s0 s
-  snd : ∀ es, s.cache = some es → ∀ e ∈ es, ∀ a ∈ e.args, refs c a e.path = true
+  snd : ∀ es, s.cache = some es → ∀ e ∈ es, ∀ a ∈ e.args, refsN c a e.names = true
   fin : s.final = true → ∀ d ∈ s.disk, isTmp d.kind = false →
-    ∃ a, Holds s0 a none ∧ refs c a d.path = true
+    ∃ a, Holds s0 a none ∧ refsN c a (d.path :: d.alts) = true
 
 theorem RInv.frame {c : Cfg} {s0 s s' : St} (r : RInv c s0 s) (f : Frame s s') (h : Sh s s') (k : BK s') :
     RInv c s0 s' := by
@@ -355,7 +355,7 @@ theorem cacheMap_bk (c : Cfg) (s : St) (k : BK s) : BK (cacheMap c s) := by
     foldRemove_bk (fun a => !((cacheEntries c s).any (fun e => e.args.contains a))) _ _ k1
   exact ⟨k2.cons, k2.ne⟩
 
-theorem cacheEntries_sound (c : Cfg) (s : St) : ∀ e ∈ cacheEntries c s, ∀ a ∈ e.args, refs c a e.path = true := by
+theorem cacheEntries_sound (c : Cfg) (s : St) : ∀ e ∈ cacheEntries c s, ∀ a ∈ e.args, refsN c a e.names = true := by
   intro e he a ha
   unfold cacheEntries at he
   simp only [List.mem_map, List.mem_filter] at he
@@ -430,7 +430,7 @@ theorem normCache_inDom (c : Cfg) (s : St) :
 theorem fin_core {c : Cfg} {s0 s1 : St} (r : RInv c s0 s1) (es es' : List Entry) (disk' : List DiskEnt)
     (hes : s1.cache = some es) (hsub : ∀ e ∈ es', e ∈ es ∧ e.args.isEmpty = false)
     (nc : ∀ e ∈ es, ∀ a ∈ e.args, InDom s1 a) (hpn : s1.postNodes = []) (al : Aligned es' disk') :
-    ∀ d ∈ disk', isTmp d.kind = false → ∃ a, Holds s0 a none ∧ refs c a d.path = true := by
+    ∀ d ∈ disk', isTmp d.kind = false → ∃ a, Holds s0 a none ∧ refsN c a (d.path :: d.alts) = true := by
   intro d hd ht
   have hdf : d ∈ disk'.filter (fun d => !isTmp d.kind) := List.mem_filter.mpr ⟨hd, by simp [ht]⟩
   obtain ⟨e, he', rel⟩ := forall2_mem_right al d hdf
@@ -439,7 +439,7 @@ theorem fin_core {c : Cfg} {s0 s1 : St} (r : RInv c s0 s1) (es es' : List Entry)
   obtain ⟨a, ha⟩ := hne
   have hr := r.snd es hes e he a ha
   obtain ⟨hs, hm⟩ := nc e he a ha
-  refine ⟨a, ?_, rel.1 ▸ hr⟩
+  refine ⟨a, ?_, rel.2.2.2 ▸ hr⟩
   apply r.sh.holds
   cases hhs : hs with
   | nil => exact absurd hhs (r.bk.ne a hs hm)
@@ -460,12 +460,12 @@ theorem postNodes_nil_of_sh {s s' : St} (h : Sh s s') (hp : s.postNodes.isEmpty 
   rw [hp] at hq
   cases hq
 
-theorem RInv.vdrKillSome {c : Cfg} {s0 s : St} (ok : CfgOK c s0) (sep : Sep s0.disk) (x : XInv s0 s)
+theorem RInv.vdrKillSome {c : Cfg} {s0 s : St} (ok : CfgOK c s0) (wf : DiskWF s0.disk) (x : XInv s0 s)
     (r : RInv c s0 s) (hf : s.final = false) (done : Bool) (hd : done = true → s.postNodes.isEmpty = true) :
     RInv c s0 (vdrKillSome c s done) := by
   unfold Martian.Vdr.vdrKillSome
   dsimp only
-  have x1 := x.normCache ok
+  have x1 := x.normCache ok wf.top
   have r1 := r.normCache
   have sh1 := normCache_sh c s
   have nc := normCache_inDom c s
@@ -493,7 +493,7 @@ theorem RInv.vdrKillSome {c : Cfg} {s0 s : St} (ok : CfgOK c s0) (sep : Sep s0.d
         rw [hempty] at this
         cases this
     · exact r1
-  · have x2 := x1.killCore sep es hf1 hes
+  · have x2 := x1.killCore wf es hf1 hes
     have al2 : Aligned (es.filter (fun e => !e.args.isEmpty)) (killCore s1 es).disk :=
       (x2.al hf1 _ rfl).1
     have base : RInv c s0 (killCore s1 es) := by
@@ -534,15 +534,15 @@ theorem RInv.vdrKillSome {c : Cfg} {s0 s : St} (ok : CfgOK c s0) (sep : Sep s0.d
     · exact base
 
 
-theorem RInv.vdrKill {c : Cfg} {s0 s : St} (ok : CfgOK c s0) (sep : Sep s0.disk) (hv : c.volatile = true)
+theorem RInv.vdrKill {c : Cfg} {s0 s : St} (ok : CfgOK c s0) (wf : DiskWF s0.disk) (hv : c.volatile = true)
     (x : XInv s0 s) (r : RInv c s0 s) (hp : s.postNodes.isEmpty = true) : RInv c s0 (vdrKill c s) := by
   unfold Martian.Vdr.vdrKill
   split
   · exact r
   · rename_i hf
-    exact r.vdrKillSome ok sep x (by simpa using hf) true (fun _ => hp)
+    exact r.vdrKillSome ok wf x (by simpa using hf) true (fun _ => hp)
 
-theorem RInv.kill {c : Cfg} {s0 s : St} (ok : CfgOK c s0) (sep : Sep s0.disk) (hv : c.volatile = true)
+theorem RInv.kill {c : Cfg} {s0 s : St} (ok : CfgOK c s0) (wf : DiskWF s0.disk) (hv : c.volatile = true)
     (x : XInv s0 s) (r : RInv c s0 s) : RInv c s0 (kill c s) := by
   unfold Martian.Vdr.kill
   split
@@ -562,13 +562,13 @@ theorem RInv.kill {c : Cfg} {s0 s : St} (ok : CfgOK c s0) (sep : Sep s0.disk) (h
     split
     · rename_i hemp
       split
-      · exact r2.vdrKillSome ok sep x2 hf2 true (fun _ => hemp)
-      · exact r2.vdrKill ok sep hv x2 hemp
+      · exact r2.vdrKillSome ok wf x2 hf2 true (fun _ => hemp)
+      · exact r2.vdrKill ok wf hv x2 hemp
     · split
-      · exact r2.vdrKillSome ok sep x2 hf2 false (fun h => by cases h)
+      · exact r2.vdrKillSome ok wf x2 hf2 false (fun h => by cases h)
       · exact r2
 
-theorem RInv.step {c : Cfg} {s0 s : St} (ok : CfgOK c s0) (sep : Sep s0.disk) (hv : c.volatile = true)
+theorem RInv.step {c : Cfg} {s0 s : St} (ok : CfgOK c s0) (wf : DiskWF s0.disk) (hv : c.volatile = true)
     (x : XInv s0 s) (r : RInv c s0 s) (e : Ev) : RInv c s0 (step c s e) := by
   cases e with
   | nodeDone n => exact r.nodeDone n
@@ -583,15 +583,15 @@ theorem RInv.step {c : Cfg} {s0 s : St} (ok : CfgOK c s0) (sep : Sep s0.disk) (h
     · exact r
     · rename_i hf
       exact r.cleanTmp (by simpa using hf) _
-  | kill => exact r.kill ok sep hv x
+  | kill => exact r.kill ok wf hv x
 
-theorem joint_run {c : Cfg} {s0 s : St} (ok : CfgOK c s0) (sep : Sep s0.disk) (hv : c.volatile = true)
+theorem joint_run {c : Cfg} {s0 s : St} (ok : CfgOK c s0) (wf : DiskWF s0.disk) (hv : c.volatile = true)
     (x : XInv s0 s) (r : RInv c s0 s) (evs : List Ev) :
     XInv s0 (run c s evs) ∧ RInv c s0 (run c s evs) := by
   unfold run
   induction evs generalizing s with
   | nil => exact ⟨x, r⟩
-  | cons e rest ih => exact ih (x.step ok sep e) (r.step ok sep hv x e)
+  | cons e rest ih => exact ih (x.step ok wf e) (r.step ok wf hv x e)
 
 theorem RInv.init (c : Cfg) (s0 : St) (fr : Fresh s0) (k : BK s0) (hf : s0.final = false) : RInv c s0 s0 := by
   refine ⟨k, Sh.refl s0, ?_, ?_⟩
